@@ -213,7 +213,8 @@ def _install_core(reg):
                   lambda c: z3.And(T.wf_space(c.stable_motif), T.dom_within(c.stable_motif, N(c.self)), T.IsTrap(N(c.self), c.stable_motif)),
                   lambda c: z3.Implies(z3.Not(OI.is_none(c.parent_id)), z3.And(
                       S.valid(c.self, OI.val(c.parent_id)),
-                      T.card(T.Perc(N(c.self), c.stable_motif)) > T.card(c.self.space[OI.val(c.parent_id)])))],
+                      T.card(T.Perc(N(c.self), c.stable_motif)) > T.card(c.self.space[OI.val(c.parent_id)]),
+                      T.subspace(T.Perc(N(c.self), c.stable_motif), c.self.space[OI.val(c.parent_id)])))],
         modifies={"self": ["K", "space", "expanded", "skipped", "parent", "cand", "seeds", "sets", "ppn", "pbn", "pnfvs",
                            "edge", "motifs", "motif0", "succsig", "depth", "index"]},
         ensures=[(nm, (lambda k: (lambda c: dict(en_post(c))[k]))(nm)) for nm in
@@ -277,9 +278,9 @@ def _install_expand(reg):
         Nn, Sp, se = N(o), o.space[n], SE(c)
         facts = z3.ForAll([kk], z3.Implies(z3.And(0 <= kk, kk < LS.len(se)), z3.And(
             T.wf_space(LS.at(se)[kk]), T.dom_within(LS.at(se)[kk], Nn), T.IsTrap(Nn, LS.at(se)[kk]),
-            T.card(T.Perc(Nn, LS.at(se)[kk])) > T.card(Sp))))
+            T.card(T.Perc(Nn, LS.at(se)[kk])) > T.card(Sp), T.subspace(T.Perc(Nn, LS.at(se)[kk]), Sp))))
         fixed = z3.Implies(T.card(Sp) == T.nvars(Nn), LS.len(se) == 0)
-        return z3.And(facts, fixed, LS.len(se) >= 0, S.normsig_def(Nn, Sp, n == 0))
+        return z3.And(facts, fixed, LS.len(se) >= 0, S.normsig_def(Nn, Sp, n == 0), T.lemma_restrict(o.pn, Nn, Sp))
 
     def others_unchanged(v, o, n):
         return z3.And(
@@ -495,4 +496,164 @@ def _install_meta(reg):
             z3.And(S.valid(c.self, i), T.SKey(S.net(c.self), c.self.space[i]) == T.SKey(S.net(c.self), c.node_space),
                    T.wf_space(c.node_space), T.dom_within(c.node_space, S.net(c.self))),
             c.self.space[i] == c.node_space)))],
+    ), method_of="SD")
+
+
+# ====================================================================== cached accessors and skip paths (C16, C10, C14, C05, C03)
+def _install_skip(reg):
+    from .deps import LSet, SrcOf, NoSrc
+    from pyvc import pnmodel as P
+    NODEF = ("space", "expanded", "skipped", "parent", "cand", "seeds", "sets", "ppn", "pbn", "pnfvs")
+    INVN = [nm for nm, _ in S.inv(M.View(_dummy_ho()))]
+    EMPTYS = z3.K(Name, z3.IntVal(-1))
+
+    def N(v):
+        return S.net(v)
+
+    def pick(fn, nm):
+        return lambda c: dict(fn(c))[nm]
+
+    # restrict_petrinet_to_subspace on OPAQUE nets (SuccessionDiagram level): value RestrictPN(p, S)
+    graph_level = reg.by_name["restrict_petrinet_to_subspace"]
+
+    def restrict_apply(eng, st, c, argmap, exprmap, node):
+        pn = argmap["petri_net"]
+        if pn.ty == M.TPN:
+            sp = eng.coerce(argmap["sub_space"], TSpace, st)
+            return Val(M.TPN, T.RestrictPN(pn.t, sp.t))
+        saved, c.custom_apply = c.custom_apply, None
+        try:
+            from pyvc.calls import apply_contract
+            return apply_contract(eng, st, c, [argmap["petri_net"], argmap["sub_space"]], {}, node, arg_exprs=[exprmap.get("petri_net"), exprmap.get("sub_space")])
+        finally:
+            c.custom_apply = saved
+    graph_level.custom_apply = restrict_apply
+
+    # ------------------------------------------------------------------ node_percolated_petri_net
+    def ppn_post(c):
+        v, o, n, r = c.self, c.old.self, c.node_id, c.result
+        fixed = T.card(o.space[n]) == T.nvars(N(o))
+        return [
+            ("value_independent_of_caches", z3.If(fixed, r == T.EmptyPN, r == T.RestrictPN(o.pn, o.space[n]))),
+            ("encodes_node_dynamics", T.Encodes(r, N(o), o.space[n])),
+            ("only_this_cache_filled", z3.And(
+                v.K == o.K, v.index == o.index, S.frame_edges(v, o), v.net == o.net, v.sym == o.sym, v.pn == o.pn,
+                S.frame_nodes(v, o, fields=("space", "expanded", "skipped", "parent", "cand", "seeds", "sets", "pbn", "pnfvs", "succsig", "depth")),
+                S.frame_nodes(v, o, except_ids=(n,), fields=("ppn",)),
+                z3.Or(v.ppn[n] == o.ppn[n], z3.And(z3.Not(fixed), v.ppn[n] == M.OptPN.some(r))))),
+        ] + [("inv." + nm, g) for nm, g in S.inv(v)]
+
+    def ppn_lemmas(c):
+        o = c.old.self if c.old is not None else c.self
+        n = c.node_id
+        Nn, Sp = N(o), o.space[n]
+        par = z3.If(OptInt.is_none(c.parent_id), o.parent[n], c.parent_id)
+        pS = o.space[OptInt.val(par)]
+        return z3.And(T.lemma_restrict(o.pn, Nn, Sp, parentS=pS),
+                      z3.Implies(T.card(Sp) == T.nvars(Nn), T.Encodes(T.EmptyPN, Nn, Sp)))
+
+    reg.add(Contract(
+        "biobalm.succession_diagram.SuccessionDiagram.node_percolated_petri_net",
+        params=[("self", SD), ("node_id", TInt), ("compute", TBool), ("parent_id", OptInt)],
+        defaults={"compute": False, "parent_id": None}, result_type=M.TPN,
+        properties=("C10", "C16"),
+        requires=[lambda c: S.inv_all(c.self), lambda c: S.valid(c.self, c.node_id),
+                  lambda c: z3.Implies(z3.Not(OptInt.is_none(c.parent_id)), z3.And(
+                      S.valid(c.self, OptInt.val(c.parent_id)),
+                      T.subspace(c.self.space[c.node_id], c.self.space[OptInt.val(c.parent_id)])))],
+        modifies={"self": ["ppn"]},
+        may_raise={"KeyError": {"only_when": lambda c: z3.And(z3.Not(c.compute), M.OptPN.is_none(c.self.ppn[c.node_id]),
+                                                              T.card(c.self.space[c.node_id]) != T.nvars(N(c.self)))}},
+        raises={"KeyError": [("nothing_changed", lambda c: z3.And(c.self.ppn == c.old.self.ppn, z3.Not(c.compute)))]},
+        ensures=[(nm, pick(ppn_post, nm)) for nm in ["value_independent_of_caches", "encodes_node_dynamics", "only_this_cache_filled"] + ["inv." + x for x in INVN]],
+        lemmas=[("L5.restrict_composes+restrict_encodes+empty_encodes", ppn_lemmas)],
+        local_types={"percolated_pn": M.OptPN},
+    ), method_of="SD")
+
+
+def _install_skip2(reg):
+    from .deps import LSet, SrcOf, NoSrc
+    NODEF = ("space", "expanded", "skipped", "parent", "cand", "seeds", "sets", "ppn", "pbn", "pnfvs")
+    NODEF_NOEXP = ("space", "skipped", "parent", "cand", "seeds", "sets", "ppn", "pbn", "pnfvs")
+    INVN = [nm for nm, _ in S.inv(M.View(_dummy_ho()))]
+    EMPTYS = z3.K(Name, z3.IntVal(-1))
+    ALLF = ["K", "space", "expanded", "skipped", "parent", "cand", "seeds", "sets", "ppn", "pbn", "pnfvs",
+            "edge", "motifs", "motif0", "succsig", "depth", "index"]
+    l, e, ss, pq = z3.Const("l!h", LS.sort()), z3.Const("e!h", T.SpaceS), z3.Const("ss!h", T.SrcSet), z3.Const("p!h", T.PNS)
+
+    def N(v):
+        return S.net(v)
+
+    def pick(fn, nm):
+        return lambda c: dict(fn(c))[nm]
+
+    def entry(c):
+        return c.old.self if c.old is not None else c.self
+
+    def lem_min(c):
+        """L4+L5.min_traps_restricted and L3.min_trap_facts for the node's space"""
+        o, n = entry(c), c.node_id
+        Nn, Sp = N(o), o.space[n]
+        glue = z3.ForAll([l, e, ss, pq], z3.Implies(
+            z3.And(T.IsEnum(l, T.TrapSol(pq, 0, False, e, T.no_avoid, ss)), e == EMPTYS,
+                   z3.Or(pq == T.RestrictPN(o.pn, Sp), z3.And(pq == T.EmptyPN, T.card(Sp) == T.nvars(Nn))), T.Encodes(o.pn, Nn, EMPTYS)),
+            z3.And(T.IsEnum(T.map_union_l(Sp, l), T.MinTrapSet(Nn, Sp)),
+                   S.min_trap_facts(Nn, Sp, T.map_union_l(Sp, l)))),
+            patterns=[T.IsEnum(l, T.TrapSol(pq, 0, False, e, T.no_avoid, ss))])
+        return glue
+
+    def others(v, o, n):
+        """nodes other than n: nothing changes except that minimal trap spaces may be marked expanded (they stay without successors)"""
+        i_ = z3.Int("i")
+        x_, y_ = z3.Int("x"), z3.Int("y")
+        return z3.And(
+            S.frame_nodes(v, o, except_ids=(n,), fields=NODEF_NOEXP + ("succsig",)),
+            z3.ForAll([i_], z3.Implies(z3.And(0 <= i_, i_ < o.K, i_ != n), z3.Implies(o.expanded[i_], v.expanded[i_]))),
+            z3.ForAll([i_], z3.Implies(z3.And(0 <= i_, i_ < v.K, i_ != n, v.expanded[i_], z3.Or(i_ >= o.K, z3.Not(o.expanded[i_]))),
+                                       z3.And(v.succsig[i_] == S.nosucc, T.MinTrapSet(N(o), o.space[n])[v.space[i_]]))),
+            z3.ForAll([x_, y_], z3.Implies(z3.And(0 <= x_, x_ < o.K, x_ != n, 0 <= y_, y_ < o.K), z3.And(
+                v.edge[x_][y_] == o.edge[x_][y_], v.motifs[x_][y_] == o.motifs[x_][y_], v.motif0[x_][y_] == o.motif0[x_][y_]))),
+            z3.ForAll([x_, y_], z3.Implies(z3.And(0 <= x_, x_ < o.K, x_ != n, y_ >= o.K), z3.Not(v.edge[x_][y_]))),
+            v.K >= o.K, v.net == o.net, v.sym == o.sym, v.pn == o.pn,
+            z3.ForAll([i_], z3.Implies(z3.And(0 <= i_, i_ < o.K), v.depth[i_] >= o.depth[i_])))
+
+    def cleared(v, n):
+        return z3.And(v.cand[n] == M.OptLS.none().t, v.seeds[n] == M.OptLS.none().t, v.sets[n] == M.OptLV.none().t)
+
+    def stm_post(c):
+        v, o, n, r = c.self, c.old.self, c.node_id, c.result
+        return [
+            ("false_iff_already_expanded", r == z3.Not(o.expanded[n])),
+            ("noop_if_already_expanded", z3.Implies(o.expanded[n], z3.And(
+                v.K == o.K, S.frame_nodes(v, o, fields=NODEF + ("succsig", "depth")), S.frame_edges(v, o), v.index == o.index))),
+            ("node_expanded", z3.Implies(r, z3.And(v.expanded[n], v.space[n] == o.space[n]))),
+            ("skip_node_or_minimal", z3.Implies(r, z3.Or(
+                z3.And(v.skipped[n], cleared(v, n)),
+                z3.And(z3.Not(v.skipped[n]), v.succsig[n] == S.nosucc, S.frame_nodes(v, o, fields=("cand", "seeds", "sets")))))),
+            ("others", others(v, o, n)),
+        ] + [("inv." + nm, g) for nm, g in S.inv(v)]
+
+    def stm_loop(c):
+        v, o, n = c.self, c.old.self, c.node_id
+        return [("inv." + nm, g) for nm, g in S.inv(v, exempt=n)] + [
+            ("node_in_progress", z3.And(z3.Not(v.expanded[n]), z3.Not(v.skipped[n]), cleared(v, n), v.space[n] == o.space[n], S.valid(v, n),
+                                        z3.Or(v.ppn[n] == o.ppn[n], v.ppn[n] == M.OptPN.some(T.RestrictPN(o.pn, o.space[n]))))),
+            ("signature_so_far", v.succsig[n] == S.FoldSig(N(o), c.coll, c.i)),
+            ("others", others(v, o, n)),
+        ]
+
+    reg.add(Contract(
+        "biobalm.succession_diagram.SuccessionDiagram.skip_to_minimal",
+        params=[("self", SD), ("node_id", TInt)], result_type=TBool,
+        properties=("C14", "C05", "C03"),
+        requires=[lambda c: S.inv_all(c.self), lambda c: S.valid(c.self, c.node_id)],
+        modifies={"self": ALLF},
+        may_raise={"RuntimeError": {"modifies": {"self": ["ppn"]}}},
+        raises={"RuntimeError": [("inv_kept", lambda c: S.inv_all(c.self)), ("still_unexpanded", lambda c: z3.Not(c.self.expanded[c.node_id]))]},
+        ensures=[(nm, pick(stm_post, nm)) for nm in ["false_iff_already_expanded", "noop_if_already_expanded", "node_expanded",
+                                                      "skip_node_or_minimal", "others"] + ["inv." + x for x in INVN]],
+        lemmas=[("L4+L5.min_traps_restricted+L3.min_trap_facts", lem_min),
+                ("def.SkipOK", lambda c: S.skipok_intro(N(c.self), c.old.self.space[c.node_id], c.minimal_traps, c.self.succsig[c.node_id]))],
+        loops={0: LoopContract("for m_trap in minimal_traps", stm_loop, havoc_heap={"self": ALLF})},
+        local_types={"minimal_traps": LS},
     ), method_of="SD")
